@@ -65,6 +65,8 @@ impl From<io::Error> for ReadError {
     }
 }
 
+const MAX_PREALLOCATED_LEN: usize = 1 << 12;
+
 #[allow(clippy::type_complexity)]
 pub(super) fn read_bins<R>(
     reader: &mut R,
@@ -75,8 +77,10 @@ where
 {
     let bin_count = read_bin_count(reader)?;
 
-    let mut bins = IndexMap::with_capacity(bin_count);
-    let mut index = BinnedIndex::with_capacity(bin_count);
+    // The count is read from the input and is not yet validated, i.e., only a limited capacity is
+    // preallocated, and the collection grows as entries are read.
+    let mut bins = IndexMap::with_capacity(bin_count.min(MAX_PREALLOCATED_LEN));
+    let mut index = BinnedIndex::with_capacity(bin_count.min(MAX_PREALLOCATED_LEN));
 
     let metadata_id = Bin::metadata_id(depth);
     let mut metadata = None;
